@@ -13,7 +13,8 @@ CFG = dict(
         "Props.C16.bp_step_inv", "Props.C16.bp_run_inv", "Props.C16.flush_enabled_iff", "Props.C16.flush_timer_armed",
         "Props.C16.timer_fire_enables", "Props.C16.flush_immediate_when_unconfigured", "Props.C16.trigger_enables",
         "Props.C16.handed_over_within_limits",
-        "Bridge.C16.producerMessageOverhead_eq", "Bridge.C16.recordBatchOverhead_eq", "Bridge.C16.wouldOverflow_eq",
+        "Bridge.C16.producerMessageOverhead_eq", "Bridge.C16.recordBatchOverhead_eq", "Bridge.C16.maximumRecordOverhead_eq",
+        "Bridge.C16.maxRequestSizeDefault_eq", "Bridge.C16.runMsgBranch_fits", "Bridge.C16.runMsgBranch_overflow", "Bridge.C16.wouldOverflow_eq",
         "Bridge.C16.readyToFlush_eq", "Bridge.C16.empty_eq", "Bridge.C16.byteSize_eq", "Bridge.C16.dispatch_eq",
         "Bridge.C16.addSize_eq_gen", "Bridge.C16.addAccumulate_eq", "Bridge.C16.dropAccumulate_eq",
         "Bridge.C16.runOutputTail_eq", "Bridge.C16.rollOver_eq"],
@@ -38,12 +39,12 @@ CFG["manifest"] = dict(
          "if encode accepts it (<= MaxRequestSize); decision table of readyToFlush; run-loop invariant: output enabled <=> timer fired or readyToFlush, non-empty buffer with a frequency "
          "has its timer armed, no trigger configured => enabled whenever non-empty, every set handed to the bridge satisfies the three limits. "
          "Bridge: wouldOverflow, readyToFlush, empty, byteSize (header loop through its extracted body), the dispatcher checks, the size assignments and accumulators of add/dropPartition, "
-         "the loop tail and rollOver of brokerProducer.run are re-translated from /repo on every run and proved equal to the model. "
+         "the message branch (overflow test -> waitForSpace -> add -> timer arming, with its `continue` exits), the loop tail and rollOver of brokerProducer.run, and the constants "
+         "producerMessageOverhead / maximumRecordOverhead / recordBatchOverhead / initial MaxRequestSize are re-translated from /repo on every run and proved equal to the model. "
          "Correspondence + oracle: op sequences through the real produceSet with sizes aimed at every limit (+-2) across 9 releases x codecs x Flush/limit combinations, exhaustive boundary grid, "
          "real dispatcher at byteSize = limit-1/limit/limit+1, real buildRequest+encode sizes vs. the model's wire size, and the real brokerProducer.run loop with the harness as producers, "
          "bridge and broker (hand-over, timer, take, drop).",
-    note="Trusted: Lean kernel; translator tools/extract + GoSem.lean; harness/line protocol. maximumRecordOverhead, binary.MaxVarintLen32 and MaxRequestSize are not extractable "
-         "(stdlib selector constants / a variable): tied by the `consts` line of the harness. The control flow of add between the extracted fragments is tied by correspondence. "
+    note="Trusted: Lean kernel; translator tools/extract + GoSem.lean; harness/line protocol. The control flow of add between the extracted fragments is tied by correspondence. "
          "Known finding: buildRequest panics for a legacy compressed set whose inner message set exceeds MaxRequestSize (26 vs 34 bytes per format-1 message).",
     technique="Lean 4 proof (invariants over inductively defined reachable sets and run-loop event sequences) + regenerated bridge obligations + differential correspondence incl. the real run loop",
 )
